@@ -364,6 +364,25 @@ def it2(ctx, flavours):
                         why.append('position store is not position + 1: %s' % pretty(term))
                     if some_edge is None or not cfg.edge_dominates(some_edge[0], some_edge[1], sbi):
                         why.append('position advances on a path where no entry was read')
+                    # ... and on every path that yields an item: no path entry -> `_0 = Some(..)` -> return around the store
+                    def _reach(starts):
+                        seen_, todo_ = set(starts), list(starts)
+                        while todo_:
+                            x_ = todo_.pop()
+                            for y_ in cfg.succ[x_]:
+                                if y_ in seen_ or y_ == sbi or b['blocks'][y_]['cleanup']:
+                                    continue
+                                seen_.add(y_)
+                                todo_.append(y_)
+                        return seen_
+                    if sbi != 0:
+                        fwd_ = _reach({0})
+                        for yb, ybb in enumerate(b['blocks']):
+                            if yb in fwd_ and not ybb['cleanup'] and any(s_['k'] == 'assign' and s_['dst']['l'] == 0 and not s_['dst']['p'] and s_['rv']['k'] == 'aggr' and
+                                                                          s_['rv']['ak'].endswith('Option::Some') for s_ in ybb['stmts']):
+                                if any(b['blocks'][x_]['term']['k'] == 'return' for x_ in _reach({yb})):
+                                    why.append('an edge is yielded on a path that does not advance the cursor')
+                                    break
             # yielded edge
             somes = []
             for bi, bb in enumerate(b['blocks']):
